@@ -42,6 +42,9 @@ inductive FErr where
   | condNonzeroBranch
   /-- `assert () not in fac1` / `fac2` -/
   | condEmptyKey
+  /-- `RuntimeError("Expecting all non-zero components to depend on the arguments.")` (since commit
+  3991a34: a target without factors in a form of rank ≥ 1 that is not the literal `Zero`) -/
+  | targetArgFree
   /-- `ValueError("Division by zero!")` from `Division.__new__` -/
   | divisionByZero
   /-- not a graph `build_scalar_graph` can produce (operand index out of order, wrong arity) -/
@@ -327,6 +330,10 @@ def targetDict (avIndex : Nat → Nat) (rank : Nat) (st : FState) (t : Nat) : Di
     -- `ai_fi = {tuple(sorted(arg_indices.index(si) for si in argkey)): fi}`, `.update(ai_fi)`
     d.foldl (fun acc kv => acc.set (sortNat (kv.1.map avIndex)) kv.2) []
 
+/-- a target without factors in a form of rank ≥ 1 whose expression is not the literal `Zero` -/
+def targetRejected (rank : Nat) (st : FState) (S : Array Node) (t : Nat) : Bool :=
+  (st.facs[t]?.getD []).isEmpty && rank != 0 && kindAt S t != .zero
+
 /-- `compute_argument_factorization(S, rank)` -/
 def factorize (S : Graph) (rank : Nat) : Except FErr FResult :=
   let av := argIndices S.nodes
@@ -334,6 +341,10 @@ def factorize (S : Graph) (rank : Nat) : Except FErr FResult :=
   match runNodes avIndex (initState S.nodes) 0 S.nodes.toList with
   | .error e => .error e
   | .ok st =>
+    if S.targets.any (fun t => decide (S.nodes.size ≤ t.1)) then .error (.malformed "target")
+    -- `elif not isinstance(S.nodes[S_target]["expression"], Zero): raise RuntimeError(…)`
+    else if S.targets.any (fun t => targetRejected rank st S.nodes t.1) then .error .targetArgFree
+    else
     .ok { F := st.F,
           targetDicts := S.targets.map fun (t, comps) => (t, comps, targetDict avIndex rank st t),
           nodeFacs := st.facs, argIndices := av }
@@ -347,10 +358,8 @@ graph, stated on the argkey sets that the algorithm assigns to the nodes (`nodeF
 * `prod`: the keys `sorted(k0 + k1)` for `k0` of the first and `k1` of the second operand are
   pairwise distinct (else `factors[argkey] = …` overwrites a term: `(u₀+u₁)·(u₀+u₁)`).  Operands
   with disjoint argument numbers always satisfy this.
-* a target of a form of rank ≥ 1 depends on arguments or is the literal zero (else its
-  contribution is dropped: "Zero form of arity 1 or higher: make factors empty" — e.g. the
-  component `f` of the Expression `as_vector((u, f))`); the re-keyed argkeys of a target are
-  pairwise distinct (always true for the real ordering keys; not proved);
+* the re-keyed argkeys of a target are pairwise distinct (always true for the real ordering
+  keys; not proved);
 * the `pos` of the argument nodes are their ranks `0 … n-1` (the exporter's convention, so that
   `AV[pos]` is that node).
 
@@ -358,7 +367,9 @@ Implied by acceptance and therefore NOT part of the predicate (proved in
 `FfcxProofs/Lemmas/FactorizeNodes.lean`): topological order and operand counts (checked by
 `stepNode`), and — since commit d075f67 — that the operands of a sum are both argument-dependent or
 both argument-free (`handle_sum` raises `sumArgFree` otherwise; before, it silently dropped the
-argument-free summand, DESIGN F10).  No argument under a non-linear operator, a condition or a
+argument-free summand, DESIGN F10), and — since commit 3991a34 — that a target of a form of rank
+≥ 1 depends on arguments or is the literal zero (`targetArgFree` otherwise; before, the component
+`f` of the Expression `as_vector((u, f))` was silently dropped).  No argument under a non-linear operator, a condition or a
 divisor, and the shape of conditional branches, are enforced through errors as well. -/
 
 def pairKeys (k0s k1s : List Key) : List Key :=
@@ -372,9 +383,7 @@ def wfNode (facs : Array Dict) (n : Node) : Bool :=
 
 def wfTarget (avIndex : Nat → Nat) (S : Array Node) (rank : Nat) (facs : Array Dict) (t : Nat) : Bool :=
   let d := facs[t]?.getD []
-  decide (t < S.size) &&
-  (if d.isEmpty then rank == 0 || kindAt S t == .zero
-   else decide (d.keys.map fun k => sortNat (k.map avIndex)).Nodup)
+  d.isEmpty || decide (d.keys.map fun k => sortNat (k.map avIndex)).Nodup
 
 def wfCheck (S : Graph) (rank : Nat) (r : FResult) : Bool :=
   -- the ordering keys of the arguments are their ranks (the exporter's convention for `arg pos _`)
